@@ -199,7 +199,7 @@ def mutate_text(rng, text, other):
         lines.pop()
     k = rng.choice(['insert', 'delete', 'dup', 'move', 'ws_tail', 'ws_head', 'crlf_one', 'crlf_all',
                     'cr_mid', 'dash_add', 'dash_del', 'concat', 'concat_blank', 'flip_body',
-                    'flip_sig', 'none', 'blank_around', 'no_final_nl', 'swap', 'longline', 'longline'])
+                    'flip_sig', 'none', 'blank_around', 'no_final_nl', 'swap', 'longline', 'longline', 'nul_tail', 'nul_tail'])
     nl = True
     i = rng.randrange(len(lines)) if lines else 0
     if k == 'insert':
@@ -216,6 +216,11 @@ def mutate_text(rng, text, other):
         lines[i], lines[j] = lines[j], lines[i]
     elif k == 'ws_tail' and lines:
         lines[i] = lines[i] + rng.choice([' ', '\t', '  '])
+    elif k == 'nul_tail' and lines:
+        # gpg strips trailing NUL bytes of a cleartext line along with the trailing blanks (its strchr()
+        # test matches the terminator), str.split() keeps them inside the last word
+        tail = rng.choice(['\x00', '\x00\x00 ', ' \x00', '\x00\t\x00'])
+        lines[i] = (lines[i].rstrip(' \t') if rng.random() < 0.5 else lines[i]) + tail
     elif k == 'ws_head' and lines:
         lines[i] = rng.choice([' ', '\t']) + lines[i]
     elif k == 'crlf_one' and lines:
@@ -314,6 +319,9 @@ def signed_records(args):
                 elif st == 2 and c == 'BG':
                     st = 3
                 elif st == 2 and len(lines[j].encode('utf8', 'surrogatepass')) > 16384:
+                    acls[j] = 'JK'
+                elif st == 2 and '\x00' in lines[j]:
+                    # so is a line holding a NUL byte (gpg drops trailing ones from what it authenticates)
                     acls[j] = 'JK'
             lenient = False
             if not nl and lines and acls[-1] in ('BS', 'BG', 'EN'):
